@@ -100,6 +100,15 @@ func (m *MatchHTTP) Match(cx *layer4.Connection) (bool, error) {
 		bufReader := bufio.NewReaderSize(cx, len(data))
 		req, err = http.ReadRequest(bufReader)
 		if err != nil {
+			// When the header block is still incomplete (e.g. the data ends inside a
+			// header name), net/http reports a protocol error such as "missing colon"
+			// instead of the underlying read error. That is not a verdict: more data is needed.
+			if !bytes.Contains(data, []byte("\n\r\n")) && !bytes.Contains(data, []byte("\n\n")) {
+				if len(data) >= layer4.MaxMatchingBytes {
+					return false, layer4.ErrMatchingBufferFull
+				}
+				return false, layer4.ErrConsumedAllPrefetchedBytes
+			}
 			return false, err
 		}
 
